@@ -10,7 +10,8 @@ import json, os, shutil, subprocess, sys, time
 pid, mk = sys.argv[1], sys.argv[2]
 extra = sys.argv[3:]
 wt = "/tmp/seed_%s" % pid
-src = os.path.join(wt, "_seed", mk)
+sub = "_seed2" if mk.startswith("n") else "_seed"
+src = os.path.join(wt, sub, mk)
 dst = os.path.join("/verif/seeded", "%s_%s" % (pid, mk))
 os.makedirs(dst, exist_ok=True)
 for fn in ("patch.diff", "demo.py", "meta.json"):
@@ -27,7 +28,7 @@ def demo():
     rcs = []
     for _ in range(2):
         try:
-            rc, out = sh("/venv/bin/python _seed/%s/demo.py" % mk, timeout=180)
+            rc, out = sh("/venv/bin/python %s/%s/demo.py" % (sub, mk), timeout=180)
         except subprocess.TimeoutExpired:
             rc, out = 124, "timeout"
         rcs.append(rc)
@@ -35,8 +36,8 @@ def demo():
 
 
 res = {"property": pid, "id": mk}
-sh("git checkout -- . ; git clean -fdq -e _seed")
-rc, out = sh("git apply --check _seed/%s/patch.diff && git apply _seed/%s/patch.diff && git diff --stat" % (mk, mk))
+sh("git checkout -- . ; git clean -fdq -e _seed -e _seed2")
+rc, out = sh("git apply --check %s/%s/patch.diff && git apply %s/%s/patch.diff && git diff --stat" % (sub, mk, sub, mk))
 res["applies"] = rc == 0
 res["diffstat"] = out.strip().splitlines()[-1] if out.strip() else ""
 rc, out = sh("/venv/bin/python -m pytest -q -p no:cacheprovider -x 2>&1 | tail -2", timeout=900)
@@ -65,7 +66,7 @@ for cid in [pid] + extra:
             replay_what.append("?" + str(e))
     checks[cid] = {"rc": p.returncode, "wall_s": round(time.time() - t0), "violation_lines": viol, "what": replay_what}
 res["our_checks"] = checks
-sh("git checkout -- . ; git clean -fdq -e _seed")
+sh("git checkout -- . ; git clean -fdq -e _seed -e _seed2")
 rcs, tail = demo()
 res["demo_passes_without_patch"] = all(r == 0 for r in rcs)
 res["demo_without_patch"] = {"rcs": rcs, "tail": tail}
